@@ -508,7 +508,21 @@ impl World {
         }
         self.stats.bump("msk_wire_checks");
         if let Some((p, s, d)) = problems.into_iter().next() {
-            self.finding(p, s, d);
+            // what was observed is the *serialized* master key: before blaming the object, check
+            // that its serialization is faithful (otherwise this is a serialization defect, C13)
+            let faithful = match ser(&self.msk) {
+                Out::Ok(b) => matches!(de::<MasterSecretKey>(&b), Out::Ok(x) if x == self.msk),
+                _ => false,
+            };
+            if faithful {
+                self.finding(p, s, d);
+            } else {
+                self.finding(
+                    "C13",
+                    format!("roundtrip-not-equal:msk:probe-after-{}", s.split(':').next().unwrap_or("")),
+                    format!("the serialized master key disagrees with the operations performed ({d}) and deserialize(serialize(msk)) != msk: the serialization is not faithful"),
+                );
+            }
         }
     }
 
@@ -1214,7 +1228,41 @@ impl World {
                     Some(false) => {
                         self.unchanged_msk(&before, op);
                     }
-                    None => {}
+                    None => {
+                        // an update that should have been refused (a new right involving a disabled
+                        // attribute): does the public key it returned publish such a right? (C06)
+                        if let (Err(MErr::BornDisabled), Out::Ok(mpk)) = (&exp, &out) {
+                            let disabled_ids: Vec<u64> = self
+                                .mskm
+                                .st
+                                .all_attrs()
+                                .iter()
+                                .filter(|(_, a)| a.disabled)
+                                .filter_map(|(_, a)| self.tok_id.get(&a.tok).copied())
+                                .collect();
+                            if let Some(Ok(w)) = ser(mpk).ok().map(|b| WMpk::parse(&b)) {
+                                let published_disabled = w.keys.iter().any(|(r, _)| {
+                                    let mut c = wire::Cur::new(r);
+                                    let mut hit = false;
+                                    while c.remaining() > 0 {
+                                        match c.leb("id") {
+                                            Ok(id) => hit |= disabled_ids.contains(&id),
+                                            Err(_) => break,
+                                        }
+                                    }
+                                    hit
+                                });
+                                if published_disabled {
+                                    self.stats.findings.push(Finding {
+                                        prop: "C06".into(),
+                                        signature: "C06:update-publishes-a-new-right-of-a-disabled-attribute".into(),
+                                        detail: "update_msk accepted a structure in which a new right involves a disabled attribute and the public key it returned publishes such a right".into(),
+                                        replay: self.replay.clone(),
+                                    });
+                                }
+                            }
+                        }
+                    }
                 }
             }
             Op::Rekey { pol, text } | Op::Prune { pol, text } => {
@@ -1821,14 +1869,19 @@ impl Gen {
         let invalid = self.rng.chance(p.invalid_pct, 100);
         // un-stick a master key whose update fails because of a born-disabled right
         if w.last_update_failed_born_disabled && self.rng.chance(3, 4) {
+            // the culprits are attributes the master key has no secret for yet (born disabled
+            // themselves, or new next to a disabled one)
+            let mut cands = vec![];
             for (dn, a) in st.all_attrs() {
-                if a.disabled {
-                    let mut r = RightT::new();
-                    r.insert(a.tok);
-                    if !w.mskm.secrets.contains_key(&r) {
-                        return Op::DelAttr { dim: dn, name: a.name };
-                    }
+                let mut r = RightT::new();
+                r.insert(a.tok);
+                if !w.mskm.secrets.contains_key(&r) {
+                    cands.push((dn, a.name));
                 }
+            }
+            if !cands.is_empty() {
+                let (dim, name) = self.rng.pick(&cands).clone();
+                return Op::DelAttr { dim, name };
             }
         }
         for _ in 0..20 {
